@@ -42,6 +42,7 @@ class SMMapSetMeta:
     ) -> Tuple[List[BpmChangeSnap], SMStopList]:
         """Reads the metadata strings"""
         bcs_s, stops = None, SMStopList([])
+        stop_tokens = None
         for line in lines:
             if line == "":
                 continue
@@ -86,7 +87,7 @@ class SMMapSetMeta:
             elif s[0] == "#BPMS":
                 bcs_s = self._read_bpms(s[1].strip().split(","))
             elif s[0] == "#STOPS":
-                stops = self._read_stops(bcs_s, self.offset, s[1].strip().split(","))
+                stop_tokens = s[1].strip().split(",")
             elif s[0] == "#SAMPLESTART":
                 self.sample_start = RAConst.sec_to_msec(float(s[1].strip()))
             elif s[0] == "#SAMPLELENGTH":
@@ -99,6 +100,11 @@ class SMMapSetMeta:
                 self.bg_changes = s[1].strip()
             elif s[0] == "#FGCHANGES":
                 self.fg_changes = s[1].strip()
+
+        # Tags carry no order: the stops need the tempo list and the offset,
+        # wherever their tags are in the file
+        if stop_tokens is not None:
+            stops = self._read_stops(bcs_s, self.offset, stop_tokens)
 
         return bcs_s, stops
 
